@@ -732,7 +732,7 @@ def rule_fresh(ctx):
     I_, T_ = ("idx", (TERMS,)), ("at", TERMS)
     TAKEN = ("call", "Atom::variables", (A_,))
     N1 = ("format", "N{}", (I_,))
-    N2 = ("format", "N{}_{}", (I_, ("lit", 0)))
+    N2 = ("format", "N{}_0", (I_,))        # N<i>_<j> at j = 0 (a literal argument is folded into the text)
     needs = ("cond", ("call", "natural::is_term_regular_of_first_kind", (T_,)), False)
 
     def taken(n, pol):
@@ -752,7 +752,7 @@ def rule_fresh(ctx):
                     cands.append(al[0][1])
                 elif len(src) == 1 and src[0] == ("ctor", "RangeFrom", (("start", ("lit", 0)),)) and len(al) == 1 and not al[0][0]:
                     from ..leaves import replace as _replace
-                    cands.append(_replace(al[0][1], {("at", src[0]): ("lit", 0)}))
+                    cands.append(sym.anon_format(_replace(al[0][1], {("at", src[0]): ("lit", 0)})))
                     unbounded = True
                     break
                 else:
